@@ -321,15 +321,14 @@ Proof.
   intros Hf Hm Hle. pose proof (scale_with_f32_mono f o t real Hf Hle). lia.
 Qed.
 
-(* ---------- to_discrete can produce the factor -0.0, and then scale is NOT monotone ---------- *)
+(* ---------- the factor -0.0 (former finding F14b) ---------- *)
 
 (* One row whose non-wildcard cells are all zeros, the first +0.0 and the last -0.0:
    min_by keeps the FIRST of equal minima (+0.0), max_by the LAST of equal maxima (-0.0), so
-   offset = -0.0 + +0.0 = +0.0, max_score = -0.0 + -0.0 = -0.0 and
-   factor = (-0.0 - +0.0) / 255 = -0.0.  Every position scores 0.0 (byte score 0, image of the
-   real score 0: the main clause holds), but the threshold -1.0 <= 0.0 is mapped to
-   (-1.0 - 0.0) / -0.0 = +inf -> 255: the pre-filter loses every hit.  (Found with the
-   threshold-transfer check on the implementation; corpus/C08/negzero_factor.txt.) *)
+   offset = -0.0 + +0.0 = +0.0, max_score = -0.0 + -0.0 = -0.0 and max_score - offset = -0.0.
+   Before the repair of to_discrete (`.abs()` on the range) the factor was -0.0 and the threshold
+   -1.0 <= 0.0 was mapped to (-1.0 - 0.0) / -0.0 = +inf -> 255.  With the repair the factor is +0.0
+   and the threshold maps to 0 (regression example; corpus/C08/negzero_factor.txt). *)
 Definition negz_matrix : list (list F32.t) :=
   [map F32.of_bits [0; 2147483648; 2147483648; 2147483648; 4286578688]%Z].
 
@@ -345,18 +344,5 @@ Definition f32_transfer_outcome (m : list (list F32.t)) (s : list nat) (pos : na
       well_conditioned m (d_factor d), factor_sign_clear (d_factor d)).
 
 Lemma negz_outcome :
-  f32_transfer_outcome negz_matrix [0%nat] 0 (F32.of_bits 3212836864) = Ok (0, 0, 255, true, true, false)%Z.
+  f32_transfer_outcome negz_matrix [0%nat] 0 (F32.of_bits 3212836864) = Ok (0, 0, 0, true, true, true)%Z.
 Proof. vm_compute. reflexivity. Qed.
-
-Lemma negz_finite : f32_finite_nonwild 5 negz_matrix = true.
-Proof. vm_compute. reflexivity. Qed.
-
-Lemma transfer_f32_refuted_negzero :
-  exists (m : list (list F32.t)) (s : list nat) (pos : nat) (t : F32.t) (b sr st : Z),
-    f32_finite_nonwild 5 m = true /\ (pos + length m <= length s)%nat /\
-    f32_transfer_outcome m s pos t = Ok (b, sr, st, true, true, false) /\
-    (sr <= b)%Z /\ (b < st)%Z.
-Proof.
-  exists negz_matrix, [0%nat], 0%nat, (F32.of_bits 3212836864), 0%Z, 0%Z, 255%Z.
-  split; [exact negz_finite|]. split; [cbn; lia|]. split; [exact negz_outcome|]. split; lia.
-Qed.
